@@ -265,3 +265,34 @@ func ownershipRules(c *Ctx) {
 	checkInputReadonly(p, c.Run.Rule("INPUT-readonly", "no exported function of a public package writes through an input parameter", 200), false)
 	checkReturnFresh(p, c.Run.Rule("RETURN-fresh", "byte slices returned by exported functions never alias the storage of the receiver or of a parameter", 20), false)
 }
+
+// globalStoreRule: GLOBAL-store (the rule of C18) in one configuration: nothing writes memory
+// rooted at a package-level variable after package initialisation — constants and precomputed
+// tables keep the values E-CONST decided for them.
+func globalStoreRule(c *Ctx, id string) {
+	if !c.Preload(id) {
+		return
+	}
+	run := c.Run
+	run.SetConfig(id)
+	p := c.Prog(id)
+	gst := run.Rule("GLOBAL-store", "no store to memory rooted at a package-level variable outside package initialisation (directly or through a written call argument): constants and tables stay what they were decided to be", 400)
+	m := modFor(p)
+	byFn := map[string]bool{}
+	for _, w := range m.DirectGlobalWrites() {
+		if m.InitOnly[w.Fn] {
+			continue
+		}
+		if load.IsControlPos(w.Pos) {
+			continue
+		}
+		name := load.FuncName(w.Fn)
+		byFn[name] = true
+		gst.Fail(w.Pos, name, "writes package-level variable "+w.Global+" after initialisation ("+w.What+")", nil)
+	}
+	for _, fn := range p.ModuleFuncs() {
+		if len(fn.Blocks) > 0 && !byFn[load.FuncName(fn)] {
+			gst.OK(load.FuncName(fn))
+		}
+	}
+}
